@@ -7,6 +7,10 @@
 //             and SIGKILLs itself at yield point k; the parent then starts a fresh handler on those
 //             directories and records GET, /index and the directory contents.
 //   Cancel k: the client "disconnects" (http.CloseNotifier fires) at yield point k.
+//   Plain runs are made a second time after a PRELUDE on the same router and buffer pool: uploads that do
+//   not arrive completely (another block's upload breaks in mid-body; an upload of this block stops early
+//   right after a GET of it, when there is a copy to GET).  They must be refused without any filesystem
+//   step and must leave the pool as they found it: the PUT under test then behaves as in the plain run.
 // Scenarios: body sizes 0, 1, 100000 (0, 1, 4 chunk writes); 1-2 volumes; prior copy absent / intact /
 // corrupt (bit flip + shortened, right bytes + trailing bytes, proper prefix) on either volume; one
 // read-only variant.
@@ -16,7 +20,9 @@ import (
 	"bytes"
 	"crypto/md5"
 	"encoding/json"
+	"errors"
 	"fmt"
+	"io"
 	"io/ioutil"
 	"net/http/httptest"
 	"os"
@@ -293,10 +299,11 @@ func TestVerifC02(t *testing.T) {
 		scs = append(scs, c02Scenario{Size: size, Ro: []bool{true, false}, Prior: []string{"corrupt", "corrupt"}})
 	}
 	type job struct {
-		idx  int
-		sc   c02Scenario
-		mode string // plain, kill, cancel
-		k    int
+		idx     int
+		sc      c02Scenario
+		mode    string // plain, kill, cancel
+		k       int
+		prelude string // plain only: "", failed-upload, short-upload
 	}
 	newDirs := func(nv int) []string {
 		var dirs []string
@@ -344,9 +351,14 @@ func TestVerifC02(t *testing.T) {
 		// while the volume code still reads from it.
 		var pool *ksPool
 		if j.mode == "plain" {
-			pool = ksInstallPool(env.quiet, 2)
+			// (one more buffer is out for the whole run: another client's request in flight, see ksInstallPoolHeld)
+			pool = ksInstallPoolHeld(env.quiet, 2, 1)
 		}
+		recording := true
 		verifSetHook(func(label string) {
+			if !recording {
+				return
+			}
 			tm.Lock()
 			k := len(trace)
 			trace = append(trace, c02Strip(label))
@@ -363,6 +375,35 @@ func TestVerifC02(t *testing.T) {
 				time.Sleep(3 * time.Millisecond) // let contextForResponse's goroutine cancel the context
 			}
 		})
+		var preludeDesc []string
+		if j.prelude != "" {
+			ksOneP(func() {
+				send := func(what, method, path string, body io.Reader, clen int64) int {
+					var rec *httptest.ResponseRecorder
+					code := 0
+					if ksGuard(func() { rec = env.do(method, path, body, clen, false) }) {
+						code = rec.Code
+					}
+					preludeDesc = append(preludeDesc, fmt.Sprintf("%s -> %d", what, code))
+					return code
+				}
+				switch j.prelude {
+				case "failed-upload":
+					other := []byte("c02 prelude: a block whose upload breaks in mid-body")
+					oh := fmt.Sprintf("%x", md5.Sum(other))
+					send("PUT of another block, connection reset after 7 of its bytes", "PUT", "/"+oh,
+						&ksFailBody{data: other[:7], err: errors.New("read: connection reset by peer")}, int64(len(other)))
+				case "short-upload":
+					// (the GET is not part of the trace: only the uploads are judged here)
+					recording = false
+					send("GET of the block", "GET", "/"+hash, nil, -1)
+					recording = true
+					cut := len(data) / 2
+					send(fmt.Sprintf("PUT of the block, body ends after %d of %d bytes", cut, len(data)), "PUT", "/"+hash,
+						&ksFailBody{data: data[:cut], err: io.EOF}, int64(len(data)))
+				}
+			})
+		}
 		req := httptest.NewRequest("PUT", "/"+hash, bytes.NewReader(data))
 		if pool != nil {
 			ksOneP(func() { env.h.ServeHTTP(cn, req) })
@@ -403,6 +444,10 @@ func TestVerifC02(t *testing.T) {
 		desc := map[string]interface{}{"index": j.idx, "mode": j.mode, "k": j.k, "size": j.sc.Size, "before": hbefore, "after": hafter,
 			"put_status": cn.Code, "get_after_restart": obs.get, "trace": tr, "index_after": obs.index}
 		tags := []string{"mode=" + j.mode, fmt.Sprintf("size=%d", j.sc.Size), fmt.Sprintf("vols=%d", len(dirs)), fmt.Sprintf("put=%d", cn.Code), fmt.Sprintf("get=%d", obs.get)}
+		if j.prelude != "" {
+			desc["prelude"] = preludeDesc
+			tags = append(tags, "prelude="+j.prelude)
+		}
 		return result{term: term, desc: desc, tags: tags, nontriv: true, npoints: len(tr)}
 	}
 	runKill := func(j job) result {
@@ -495,6 +540,18 @@ func TestVerifC02(t *testing.T) {
 		for k := 0; k < np; k++ {
 			jobs = append(jobs, job{sc: sc, mode: "kill", k: k})
 			jobs = append(jobs, job{sc: sc, mode: "cancel", k: k})
+		}
+	}
+	// ---- the plain runs again, after a prelude of uploads that do not arrive completely ----
+	for si, sc := range scs {
+		if sc.Size == 0 {
+			continue // an empty body cannot stop early
+		}
+		j := job{idx: idx, sc: sc, mode: "plain", prelude: []string{"failed-upload", "short-upload"}[si%2]}
+		idx++
+		if only < 0 || only == j.idx {
+			r := runInProcess(j)
+			cs.Add(j.idx, r.term, r.desc, true, r.tags...)
 		}
 	}
 	for i := range jobs {
